@@ -115,6 +115,15 @@ GNext == \/ \E b \in Brokers, s \in Ssids : ClientSub(b, s) \/ ClientUnsub(b, s)
 Quiescent == \A b, n \in Brokers : bc[b][n] = Nothing /\ gs[b][n] = Nothing /\ ~live[b][n] /\ wire[b][n] = <<>>
 RoutingAtQuiescence ==
     Quiescent => \A b \in Brokers : routes[b] = { <<p, s>> \in Brokers \X Ssids : p # b /\ s \in loc[p] }
+(* a message published on broker b for ssid s: delivered to b's own client if subscribed, forwarded to exactly the
+   brokers in b's routing table for s, whose clients receive it if they are (still) subscribed *)
+ForwardedTo(b, s) == { p \in Others(b) : <<p, s>> \in routes[b] }
+ReceivedBy(b, s)  == { p \in Brokers : s \in loc[p] /\ (p = b \/ p \in ForwardedTo(b, s)) }
+(* C05 in terms of messages: at quiescence a publish reaches every broker with a live subscriber, once, and no other *)
+ForwardingAtQuiescence ==
+    Quiescent => \A b \in Brokers, s \in Ssids : /\ ForwardedTo(b, s) = { p \in Others(b) : s \in loc[p] }
+                                                 /\ ReceivedBy(b, s) = { p \in Brokers : s \in loc[p] }
+
 (* C13: a payload put on the wire carries every update queued on that link since the last pick: with union
    coalescing the states converge at quiescence *)
 ConvergedAtQuiescence == Quiescent => \A b, n \in Brokers : \A k \in Keys : IsAdded(st[b][k]) = IsAdded(st[n][k])
